@@ -206,19 +206,19 @@ func packer(o pw.Opts) (*slug.Packer, error) {
 }
 
 type result struct {
-	meta    *slug.Meta
-	err     error
-	pan     interface{}
-	data    []byte
-	devErr  bool
-	ents    []model.DEntry
-	sizes   []int64 // header sizes of regular entries
-	decOK   bool
-	unpErr  error
-	unpPan  interface{}
-	unpRan  bool
-	rtDir   string
-	calls   int
+	meta   *slug.Meta
+	err    error
+	pan    interface{}
+	data   []byte
+	devErr bool
+	ents   []model.DEntry
+	sizes  []int64 // header sizes of regular entries
+	decOK  bool
+	unpErr error
+	unpPan interface{}
+	unpRan bool
+	rtDir  string
+	calls  int
 }
 
 // sharedPacker, when non-nil, is the one *Packer all Pack calls of the scenario use.
@@ -252,6 +252,10 @@ func doUnpack(r io.Reader, dst string, allow []string) (err error, pan interface
 			pan = x
 		}
 	}()
+	if sharedPacker != nil {
+		// the same *Packer that packed also unpacks
+		return sharedPacker.Unpack(r, dst), nil
+	}
 	var opts []slug.PackerOption
 	for _, a := range allow {
 		opts = append(opts, slug.AllowSymlinkTarget(a))
@@ -346,6 +350,39 @@ func Run(sc *pw.Scenario) *simkit.Outcome {
 	for _, h := range sc.History {
 		sink := simkit.NewSimWriter("hist", simkit.WriterPlan{}, simkit.NewLog(), nil)
 		switch {
+		case h == "negated-twin-rules":
+			// another tree in this process whose rule file has the same patterns with the negation flipped
+			if sc.Rules != nil && sc.RulesKind == "" {
+				os.MkdirAll("/w/hist6/a/b", 0o755)
+				var flipped []string
+				for _, l := range strings.Split(*sc.Rules, "\n") {
+					t := strings.TrimSpace(l)
+					switch {
+					case t == "" || strings.HasPrefix(t, "#"):
+						flipped = append(flipped, l)
+					case strings.HasPrefix(t, "!"):
+						flipped = append(flipped, t[1:])
+					default:
+						flipped = append(flipped, "!"+t)
+					}
+				}
+				os.WriteFile("/w/hist6/.terraformignore", []byte(strings.Join(flipped, "\n")), 0o644)
+				for _, n := range []string{"a/x", "a/b/y", "c", "d.txt"} {
+					os.WriteFile("/w/hist6/"+n, []byte("h6"), 0o644)
+				}
+				filepath.Walk("/w/hist6", func(p string, info os.FileInfo, err error) error {
+					if err == nil {
+						setTimes(p, 1300000002, 0)
+					}
+					return nil
+				})
+				o := sc.Opts
+				o.Ignore = true
+				save := sharedPacker
+				sharedPacker = nil
+				doPack(o, "/w/hist6", sink)
+				sharedPacker = save
+			}
 		case h == "shared:stale-rules":
 			// the same Packer packed this very directory before, under another rule file
 			if sc.Rules != nil && sc.RulesKind == "" {
@@ -540,6 +577,9 @@ func Run(sc *pw.Scenario) *simkit.Outcome {
 			continue
 		}
 		// C12 (Pack): a device error is never swallowed, and no Meta comes with an error
+		if r.devErr && r.meta != nil {
+			out.Violate("C20", "meta-for-failed-write", "swallowed", fmt.Sprintf("run %d: the writer returned an error, yet Pack returned Meta (%d files, %d bytes) for a slug that was not written completely", i, len(r.meta.Files), r.meta.Size))
+		}
 		if r.devErr && (r.err == nil || r.meta != nil) {
 			out.Violate("C12", "pack-swallowed-write-error", "swallowed", fmt.Sprintf("run %d: the writer returned an error but Pack returned meta=%v err=%v", i, r.meta != nil, r.err))
 		}
@@ -1403,12 +1443,41 @@ func checkModelList(out *simkit.Outcome, sc *pw.Scenario, i int, r *result, t *t
 				}
 			}
 		case "link":
-			if e.Type != tar.TypeSymlink || e.Link != w.n.Target {
+			sameText := e.Link == w.n.Target
+			if !sameText && e.Type == tar.TypeSymlink && !strings.HasPrefix(w.n.Target, "/") {
+				// a target that as text climbs above the root (and re-enters by the source
+				// directory's own name) cannot be stored as written; any spelling that names the
+				// same path from the entry's position is right
+				d := filepath.Dir(pw.SrcRoot + "/" + w.name)
+				sameText = filepath.Join(d, e.Link) == filepath.Join(d, w.n.Target) && !simkit.Under(filepath.Join(d, "x"), pw.SrcRoot+"/\x00") && climbs(filepath.Dir(w.name), w.n.Target)
+			}
+			if e.Type != tar.TypeSymlink || !sameText {
 				out.Violate("C16", "entry-attrs", "link", fmt.Sprintf("run %d: %s is type %c -> %q, tree has link -> %q", i, w.name, e.Type, e.Link, w.n.Target))
 			}
 		}
 	}
 	out.Probe("model-list-compared")
+}
+
+// climbs: does target, read from relative directory dir, rise above the tree root?
+func climbs(dir, target string) bool {
+	depth := 0
+	if dir != "." && dir != "" {
+		depth = len(simkit.Segs(dir))
+	}
+	for _, s := range simkit.Segs(target) {
+		switch s {
+		case ".":
+		case "..":
+			depth--
+			if depth < 0 {
+				return true
+			}
+		default:
+			depth++
+		}
+	}
+	return false
 }
 
 func roundSec(sec, nsec int64) int64 {
